@@ -30,7 +30,7 @@ def fldTypes : String → List Nat
   | "include" => [2, 0, 2]
   | "variable" => [0, 1, 2]
   | "hat" => [0]
-  | "profile" => [0, 1]
+  | "profile" => [0, 1, 1, 1]
   | _ => []
 
 def decFld (ty : Nat) (w : List Char) : Fld :=
